@@ -231,11 +231,19 @@ class World:
             if ent["t"] == "d":
                 R_makedirs(p, exist_ok=True)
                 dirs.append((rel, ent))
+            elif ent["t"] == "l":
+                continue  # symbolic links are created after their targets
             else:
                 R_makedirs(os.path.dirname(p), exist_ok=True)
                 with R_open(p, "wb") as f:
                     f.write(content_bytes(ent.get("c")))
                 self.set_mtime_us(p, ent.get("m", default_m))
+        for rel in sorted(tree):
+            ent = tree[rel]
+            if ent["t"] == "l":
+                p = self.abspath(rel)
+                R_makedirs(os.path.dirname(p), exist_ok=True)
+                os.symlink(ent["to"], p)  # relative to the link's own directory
         # directories: stamp every directory below the mount (deepest first) so no kernel time remains
         self.restamp_all_dirs(default_m, {self.abspath(r): e.get("m", default_m) for r, e in dirs})
 
